@@ -584,8 +584,11 @@ func main() {
 			})
 		}
 		addStmt("Interpreter.Exec.gojaNew", fmt.Sprintf("calls=%d local=%v stored=%d", newCalls, newVar != "", stored))
-		after := stmtsAfter(fd, "RunProgram(", 2)
+		after := stmtsAfter(fd, "RunProgram(", 4)
 		addStmt("Interpreter.Exec.afterRun", strings.Join(after, " ;; "))
+		if ex := efs["export"]; ex != nil {
+			addStmt("ecmascript.export", text(ex.Body))
+		}
 		// every return that follows the start of the run and carries an error: what execution
 		// does it hand back?  (a non-nil execution would carry the emission buffer)
 		var runPos token.Pos
